@@ -221,12 +221,20 @@ class OperatorNot(OperatorBase):
         right = tokens.get_right()
         tokens.put_right(right.logical_not())
         
+def _both_operands(tokens, symbol):
+    # None == None and operator == operator are valid Python, unlike the arithmetic of the other operators
+    left, right = tokens.get_left(), tokens.get_right()
+    for side in (left, right):
+        if side is None or isinstance(side, OperatorBase):
+            raise Exception("Missing operand of operator:", symbol)
+    return left, right
+
 class OperatorEq(OperatorBase):
 
     symbol: str = '=='
 
     def operate_binary(self, tokens):
-        left, right = tokens.get_left(), tokens.get_right()
+        left, right = _both_operands(tokens, self.symbol)
         tokens.put_left(left == right)
 
 class OperatorNe(OperatorBase):
@@ -234,7 +242,7 @@ class OperatorNe(OperatorBase):
     symbol: str = '!='
 
     def operate_binary(self, tokens):
-        left, right = tokens.get_left(), tokens.get_right()
+        left, right = _both_operands(tokens, self.symbol)
         tokens.put_left(left != right)
 
 class OperatorLe(OperatorBase):
